@@ -83,6 +83,7 @@ class Run:
         self.audit_violations: List[tuple] = []
         self.client_parts: Dict[int, str] = {}
         self.build_error: Optional[BaseException] = None
+        self.ref_tables: Dict[str, Any] = {}
 
     # ------------------------------------------------------------------ materialisation
     def make_env(self, env_name: str, flip_async: bool = False) -> dict:
@@ -487,9 +488,17 @@ class Run:
             seams.enable_watchdog(scn.get("branch_cap") or 20000 * (sum(len(d["stmts"]) for d in self.spec["dags"].values()) + 5))
             self.sim.on_yield = lambda p: seams.watchdog_reset()
         if self.line_points is not None:
+            seams.enable_line_preemption(os.path.dirname(tawazi.__file__))
             seams.arm_lines(self.line_points)
+        elif seams._line["on"]:
+            seams.arm_lines(set())
         try:
             try:
+                for b in scn.get("refbuild", []):
+                    # sequential reference build (outside the simulated clients) of DAGs that clients will build concurrently
+                    self.build(b.get("env", "REF"), b["dags"])
+                    for dn in b["dags"]:
+                        self.ref_tables[dn] = self.snapshot_dag(self.instances[f"{b.get('env', 'REF')}:{dn}"])
                 for b in scn.get("prebuild", []):
                     self.build(b.get("env", "E"), b["dags"], flip_async=b.get("flip_async", False))
             except BaseException as e:  # noqa: BLE001 - a build that raises is a finding, not a harness error
